@@ -21,11 +21,18 @@ func main() {
 	replayDir := flag.String("replaydir", "/verif/replays", "where replay files go")
 	replay := flag.String("replay", "", "replay file to re-execute")
 	known := flag.String("known", "/verif/known_findings.json", "known findings file")
+	child := flag.String("child", "", "(internal) run as the crash-test child on this backend")
+	childDir := flag.String("childdir", "", "(internal) database directory of the child")
+	childHist := flag.String("childhist", "", "(internal) history file of the child")
 	flag.Parse()
 	if s := os.Getenv("VERIF_SEED"); s != "" && !isFlagSet("seed") {
 		if n, err := strconv.ParseInt(s, 10, 64); err == nil {
 			*seed = n
 		}
+	}
+	if *child != "" {
+		childMain(*child, *childDir, *childHist)
+		return
 	}
 	scratch, err := os.MkdirTemp("", "verif-corr-")
 	if err != nil {
